@@ -2,7 +2,9 @@
 package recovery
 
 import (
+	stderrors "errors"
 	"fmt"
+	"io/fs"
 	"math"
 	"os"
 	"strings"
@@ -120,7 +122,14 @@ func (dr *DatabaseRecovery) LoadDatabaseWithFallback(primaryPath, personalPath s
 func (dr *DatabaseRecovery) loadWithRetry(primaryPath, personalPath string) (*database.Database, error) {
 	var lastErr error
 
-	for attempt := 1; attempt <= dr.retryConfig.MaxAttempts; attempt++ {
+	// A non-positive number of attempts still means one try: without it there is
+	// neither a database nor an error to fall back on.
+	maxAttempts := dr.retryConfig.MaxAttempts
+	if maxAttempts < 1 {
+		maxAttempts = 1
+	}
+
+	for attempt := 1; attempt <= maxAttempts; attempt++ {
 		db, err := database.LoadDatabaseWithPersonal(primaryPath, personalPath)
 		verifOnAttempt(attempt, err)
 		if err == nil {
@@ -135,7 +144,7 @@ func (dr *DatabaseRecovery) loadWithRetry(primaryPath, personalPath string) (*da
 		}
 
 		// Don't sleep on the last attempt
-		if attempt < dr.retryConfig.MaxAttempts {
+		if attempt < maxAttempts {
 			delay := dr.calculateDelay(attempt)
 			verifOnDelay(delay)
 			time.Sleep(delay)
@@ -147,8 +156,10 @@ func (dr *DatabaseRecovery) loadWithRetry(primaryPath, personalPath string) (*da
 
 // shouldRetry determines if an error is worth retrying
 func (dr *DatabaseRecovery) shouldRetry(err error) bool {
-	// Don't retry for file not found or permission errors
-	if os.IsNotExist(err) || os.IsPermission(err) {
+	// Don't retry for file not found or permission errors. The loader wraps the
+	// cause in an application error, which os.IsNotExist does not look through.
+	if os.IsNotExist(err) || os.IsPermission(err) ||
+		stderrors.Is(err, fs.ErrNotExist) || stderrors.Is(err, fs.ErrPermission) {
 		return false
 	}
 
